@@ -1,9 +1,9 @@
-(* C17 driver: reads "E <hex base> <hex urlpath> <hex ResolveUrlPath(base, urlpath)>" lines *)
+(* C17 driver: reads "E|L <hex base> <hex urlpath> <hex ResolveUrlPath(base, urlpath)>" lines (L = long path) *)
 let () =
   let cases = ref 0 and specfail = ref 0 and drift = ref 0 in
   iter_lines Sys.argv.(1) (fun line ->
     match split_ws line with
-    | ["E"; b; p; o] ->
+    | [("E" | "L"); b; p; o] ->
         incr cases;
         let v = check_case (bytes_of_hex b) (bytes_of_hex p) (bytes_of_hex o) in
         if not (v.spec_contained && v.spec_dot_free) then begin
